@@ -1401,6 +1401,8 @@ class PX:
             kk = _hashable(k)
             if kk in b:
                 return b[kk]
+            if getattr(b, "default_factory", None) is not None and not isinstance(k, Sym) and not _has_sym(k):
+                return b[kk]  # collections.defaultdict: the missing entry is created
             if b and (isinstance(k, Sym) or _has_sym(k) or any(isinstance(x, Sym) or _has_sym(x) for x in b)):
                 c = Sym(f"({_short(k)} in keys({_dict_tag(b)}))")
                 if self.truth(c, fr, e):
@@ -1724,6 +1726,13 @@ class PX:
                             acc = self._apply(fnv, [acc, x], fr, node, text) if fnv is not None else self.binop(ast.Add(), acc, x, node)
                         yield acc
                 return Iter(gen_acc(), "accumulate")
+        if isinstance(fval, TypeRef) and fval.name in ("collections.defaultdict", "defaultdict") and len(args) <= 1 and not kw:
+            import collections as _c
+
+            fac = args[0] if args else None
+            real = {"builtins.list": list, "builtins.dict": dict, "builtins.set": set, "builtins.int": int, "builtins.bytearray": bytearray}.get(getattr(fac, "name", None))
+            if fac is None or real is not None:
+                return _c.defaultdict(real)
         if isinstance(fval, TypeRef) and fval.name == "itertools.cycle" and args and not isinstance(args[0], Sym):
             return _Cycle(self._concrete_iter(args[0], fr, node))
         if isinstance(fval, TypeRef) and fval.name == "itertools.chain" and not any(isinstance(a, Sym) for a in args):
